@@ -196,6 +196,10 @@ def run(rep, ctx):
     TO.norm_metric(rep, T, "R05.2")
     with rep.guard("R05.3"):
         r05_3(rep, M, "R05.3")
+    rep.rule("R05.4", "every memoised result of the analyzer is dropped by reset(), which set_system() calls (no answers for a previous structure)")
+    with rep.guard("R05.4"):
+        from .. import symrules as _SR
+        _SR.reset_covers_caches(rep, ctx.model, "R05.4")
     rep.floor("R05.1", 65)
     rep.floor("R05.2", 2400)
     rep.floor("R05.3", 7)
